@@ -26,7 +26,7 @@ Observe(job) ==
   IN [id |-> job.id, status |-> r.status,
       values |-> FilterOut(job.prog, r.vals, job.select),
       err |-> r.err, pause |-> r.pause, steps |-> r.steps,
-      calls |-> r.calls, done |-> r.done, aux |-> Aux(Prop, job)]
+      raw_keys |-> DOMAIN r.vals, calls |-> r.calls, done |-> r.done, aux |-> Aux(Prop, job)]
 
 Init == tid \in 1..Len(Jobs) /\ res = "none"
 Next == /\ res = "none"
